@@ -42,34 +42,32 @@ var strFuncs = map[string]LGFunction{
 
 func strByte(L *LState) int {
 	str := L.CheckString(1)
-	start := L.OptInt(2, 1) - 1
-	end := L.OptInt(3, -1)
 	l := len(str)
-	if start < 0 {
-		start = l + start + 1
-	}
-	if end < 0 {
-		end = l + end + 1
-	}
-
-	if L.GetTop() <= 2 {
-		if start < 0 || start >= l {
+	// positions as in lstrlib: negative counts from the end, then clamp to [1, l]
+	posrelat := func(pos int) int {
+		if pos < 0 {
+			pos += l + 1
+		}
+		if pos < 0 {
 			return 0
 		}
-		L.Push(LNumber(str[start]))
-		return 1
+		return pos
 	}
-
-	start = intMax(start, 0)
-	end = intMin(end, l)
-	if end < 0 || end <= start || start >= l {
+	start := posrelat(L.OptInt(2, 1))
+	end := posrelat(L.OptInt(3, start))
+	if start <= 0 {
+		start = 1
+	}
+	if end > l {
+		end = l
+	}
+	if start > end {
 		return 0
 	}
-
-	for i := start; i < end; i++ {
-		L.Push(LNumber(str[i]))
+	for i := start; i <= end; i++ {
+		L.Push(LNumber(str[i-1]))
 	}
-	return end - start
+	return end - start + 1
 }
 
 func strChar(L *LState) int {
